@@ -218,14 +218,18 @@ reg('C11', plan=plan_c11, level='proof', min_obligations=40,
     design_ref='DESIGN.md §5 C11')
 
 def plan_c12(tier, seed):
-    return {'verus': [('u_planes', {'stage': 'ctor'}), ('u_ctor', {})]}
+    hs = [H('range_check_is_any_visible_sample_2x2_444_10bit', bounded='real v_frame planes, 2x2 4:4:4, all 12 samples symbolic', domain='12 symbolic u16 samples',
+            desc='cross-check of the cut iterator expression (R-anycut): InvalidData <=> some visible sample > 2^n-1'),
+          H('range_check_is_any_visible_sample_2x2_420_12bit', bounded='real v_frame planes, 2x2 luma + 1x1 chroma 4:2:0, all 6 samples symbolic', domain='6 symbolic u16 samples',
+            desc='same, subsampled geometry')]
+    return {'verus': [('u_planes', {'stage': 'ctor'}), ('u_ctor', {})], 'kani': [{'crate_dir': '', 'inject': [KY], 'harnesses': hs}]}
 reg('C12', plan=plan_c12, level='proof', min_obligations=40,
     title='Constructors accept exactly the well-formed images and keep them verbatim',
     technique='Verus postconditions on the real constructors: Ok <=> well-formedness predicate written from the statement, error variant by priority, verbatim storage',
     text='Unbounded proof (Verus) over all frames and configs: Yuv::new returns Ok iff decimation matches, luma dims are multiples of the subsampling, chroma planes have the implied size, every plane fits its buffer, and '
          '(16-bit storage, depth < 16) no visible sample exceeds 2^n-1; the error is SubsamplingMismatch / InvalidLumaWidth / InvalidLumaHeight / InvalidData in the documented priority; on Ok the frame is stored verbatim '
          'and the config is the input config with Unspecified fields resolved. Rgb/LinearRgb/Xyb/Hsl::new return Ok iff data.len() == width*height (mathematical product, no wrap-around), else ResolutionMismatch; accessors return the stored values.',
-    note='Assumed: the cut iterator expression of the sample-range check behaves as its stub says (true iff a visible sample exceeds max_value); ' + '; '.join(PLANES_ASSUME[2:3]) + '. ' + TOOLS,
+    note='Assumed: the cut iterator expression of the sample-range check behaves as its stub says (true iff a visible sample exceeds max_value) - cross-checked on the real v_frame code by two bounded Kani harnesses (2x2 geometries, symbolic samples); ' + '; '.join(PLANES_ASSUME[2:3]) + '. ' + TOOLS,
     assumptions=['R-anycut stub any_sample_exceeds', '64-bit target; subsampling shifts < 64; bit depth 8..16'],
     design_ref='DESIGN.md §5 C12')
 
@@ -420,3 +424,4 @@ reg('C10', plan=plan_c10, level='model_checking', min_obligations=0,
     note='bounded: 1024 grid points per curve; ' + BITPRECISE + '. ' + TOOLS,
     assumptions=[BITPRECISE, 'grid only: not a proof for all f32 in [0,1]'],
     not_decided=['all f32 in [0,1] between grid points', 'HLG, Log100, Log316 (CBMC libm models imprecise)'], design_ref='DESIGN.md §5 C10')
+KY = ('src/yuv.rs', 'k_yuv.rs', 'verif_kani_yuv')
